@@ -129,11 +129,12 @@ def parse_num(tok):
     return int(f)
 
 
-def run_routes(exe, spec_exe, scenes, pen):
-    """returns list of per-connector records"""
+def run_routes(exe, spec_exe, scenes, pen, scale=1):
+    """returns list of per-connector records.  scale: the verified checker / oracle work on integers; coordinates and the penalty are
+    multiplied by `scale` for them (scale 2 for segmentPenalty 0.5) and the costs divided again"""
     inp = []
     for boxes, conns in scenes:
-        inp.append('S %d %d %d' % (pen, len(boxes), len(conns)))
+        inp.append('S %s %d %d' % (repr(float(pen)), len(boxes), len(conns)))
         for b in boxes:
             inp.append('%d %d %d %d' % b)
         for c in conns:
@@ -165,22 +166,25 @@ def run_routes(exe, spec_exe, scenes, pen):
     # oracle + verified checker on the integer routes
     todo = [r for r in recs if 'route' in r and all(p[0] is not None and p[1] is not None for p in r['route'])]
     oin = []
+    ipen = pen * scale
+    assert ipen == int(ipen)
     for r in todo:
-        f = [r['penalty'], len(r['boxes'])]
+        f = [int(ipen), len(r['boxes'])]
         for b in r['boxes']:
-            f += list(b)
-        f += list(r['src']) + list(r['dst']) + [start_mask(r['src_dirs']), arrival_mask(r['dst_dirs']), len(r['route'])]
+            f += [v * scale for v in b]
+        f += [v * scale for v in list(r['src']) + list(r['dst'])] + [start_mask(r['src_dirs']), arrival_mask(r['dst_dirs']), len(r['route'])]
         for p in r['route']:
-            f += list(p)
+            f += [v * scale for v in p]
         oin.append(' '.join(str(v) for v in f))
     rc2, oout, oerr, dt2 = C.sh([spec_exe, 'routes'], input='\n'.join(oin) + '\n', timeout=1800)
     olines = [l for l in oout.split('\n') if l]
     for r, l in zip(todo, olines):
         head, _, path = l.partition('|')
         h = head.split()
-        r['oracle_status'], r['oracle_cost'], r['impl_status'], r['impl_cost'] = h[0], int(h[1]), h[2], int(h[3])
+        unscale = (lambda v: v) if scale == 1 else (lambda v: v / float(scale) if v >= 0 else v)
+        r['oracle_status'], r['oracle_cost'], r['impl_status'], r['impl_cost'] = h[0], unscale(int(h[1])), h[2], unscale(int(h[3]))
         pp = path.split()
-        r['oracle_path'] = [(int(pp[2 * i]), int(pp[2 * i + 1])) for i in range(len(pp) // 2)]
+        r['oracle_path'] = [(int(pp[2 * i]) // scale, int(pp[2 * i + 1]) // scale) for i in range(len(pp) // 2)]
     if len(olines) != len(todo):
         for r in todo[len(olines):]:
             r['error'] = 'oracle driver produced no line (rc=%s %s)' % (rc2, oerr[-300:])
@@ -215,6 +219,261 @@ def route_bends(route):
     ds = [(sg(b[0] - a[0]), sg(b[1] - a[1])) for a, b in zip(route, route[1:]) if a != b]
     return sum(1 for u, v in zip(ds, ds[1:]) if u != v)
 
+
+
+# ------------------------------------------------------------------------------------------ direction-restricted free endpoints
+# ConnDirFlags of a free-floating ConnEnd (Up 1 = towards smaller y, Down 2, Left 4, Right 8) name the SIDES of the endpoint at which the
+# connector may attach: the first segment leaves the source in an allowed direction, the last segment arrives at the target travelling
+# in the direction OPPOSITE to one of the target's flags (start_mask / arrival_mask above; the same convention as the two independent
+# demo oracles of seeded/C05-3 and C05-4).  The oracle is the Coq Hanan-grid search (oracle_dirs: no turn at either endpoint, proved
+# optimal over every walk of that grid graph for the given start / arrival masks).  Calibration on /repo HEAD (framed scenes, 15 x 15
+# flag combinations, penalties 0.5 .. 400): ~96% of the raw routes have exactly the oracle cost, 0 violate the flags; the rest are
+#   * ~3%  dearer than the oracle and EXACTLY the optimum of libavoid's own search space (sight_line_model below): genuine finding
+#          restricted_endpoint_search_space (:sight_lines - bends only on lines of sight of shape sides / of the endpoints in their allowed
+#          directions, cut at the endpoints; :turn_pruning - makepath.cpp's "only turn towards a shape corner, in line with the target or on
+#          the source's own row/column" rule loses an optimum that needs two such turns);
+#   * ~1%  routes with a 180 degree turn (the connector runs past its own endpoint and comes back): restricted_endpoint_route_doubles_back.
+# "Framed" = four frame rectangles round the arena, so that no endpoint is first / last in a sweep (there
+# fixConnectionPointVisibilityOnOutsideOfVisibilityGraph silently ADDS visibility directions, i.e. the flags are not honoured at all).
+DIR_PENALTIES = [0.5, 10, 50, 400]
+FRAME = [(-46, -40, -40, 40), (40, -40, 46, 40), (-36, -52, 36, -46), (-36, 46, 36, 52)]
+FLAG_OF_HEADING = [1, 8, 2, 4]          # heading 0 N(-y) 1 E 2 S 3 W -> ConnDir flag
+HDX = [0, 1, 0, -1]; HDY = [-1, 0, 1, 0]
+FP_SPACE = 'restricted_endpoint_search_space'
+FP_BACK = 'restricted_endpoint_route_doubles_back'
+
+
+def gen_dirs_scene(rng, nrect, sflags, dflags):
+    """frame + nrect separated rectangles inside the arena [-30,30]^2, source near the centre, target anywhere free"""
+    boxes, t = [], 0
+    src = (rng.range(-6, 6), rng.range(-6, 6))
+    while len(boxes) < nrect and t < 100:
+        t += 1
+        x, y, w, h = rng.range(-26, 18), rng.range(-26, 18), rng.range(3, 14), rng.range(3, 14)
+        b = (x, y, min(x + w, 30), min(y + h, 30))
+        if b[0] <= src[0] <= b[2] and b[1] <= src[1] <= b[3]:
+            continue
+        if all(rects_sep(b, o, 2) for o in boxes):
+            boxes.append(b)
+    dst = None
+    for _ in range(60):
+        d = (rng.range(-28, 28), rng.range(-28, 28))
+        if d != src and not any(b[0] <= d[0] <= b[2] and b[1] <= d[1] <= b[3] for b in boxes):
+            dst = d
+            break
+    if dst is None:
+        return None
+    return boxes + FRAME, [(src, dst, sflags, dflags)]
+
+
+def sight_line_model(rects, src, dst, pen, sflags, dflags, prune=True, cut=True):
+    """CLASSIFIER of the known finding restricted_endpoint_search_space (not an oracle): cheapest path in a model of libavoid's own search
+    space - Hanan points; a grid segment exists only on a line of sight of a rectangle side (extended until blocked) or of an endpoint in
+    one of its allowed directions; lines are cut at the two endpoints; a turn (other than on the source's row for a turn to vertical / the
+    source's column for a turn to horizontal, or in line with the target) needs a rectangle corner further along the line it turns onto
+    (makepath.cpp:1333-1388, orthogonal.cpp setLongRangeVisibilityFlags).  Returns the optimal cost or None."""
+    import heapq
+    xs = sorted(set([r[0] for r in rects] + [r[2] for r in rects] + [src[0], dst[0]]))
+    ys = sorted(set([r[1] for r in rects] + [r[3] for r in rects] + [src[1], dst[1]]))
+    nx, ny = len(xs), len(ys)
+    XI = {x: i for i, x in enumerate(xs)}; YI = {y: i for i, y in enumerate(ys)}
+    hfree = lambda y, a, b: not any(r[1] < y < r[3] and a < r[2] and r[0] < b for r in rects)
+    vfree = lambda x, a, b: not any(r[0] < x < r[2] and a < r[3] and r[1] < b for r in rects)
+    ends = [(src, sflags), (dst, dflags)]
+    cut_h = lambda y, a, b: cut and any(e[1] == y and a < e[0] < b for e, _ in ends)
+    cut_v = lambda x, a, b: cut and any(e[0] == x and a < e[1] < b for e, _ in ends)
+    covH = [[False] * (nx - 1) for _ in range(ny)]; covV = [[False] * (ny - 1) for _ in range(nx)]
+    for yi, y in enumerate(ys):
+        for xi in range(nx - 1):
+            a, b = xs[xi], xs[xi + 1]
+            if not hfree(y, a, b):
+                continue
+            ok = any(y in (r[1], r[3]) and hfree(y, min(r[0], a), max(r[2], b)) for r in rects)
+            for e, f in ends:
+                if not ok and e[1] == y:
+                    ok = bool((f & 8 and a >= e[0] and hfree(y, e[0], b) and not cut_h(y, e[0], b)) or
+                              (f & 4 and b <= e[0] and hfree(y, a, e[0]) and not cut_h(y, a, e[0])))
+            covH[yi][xi] = ok
+    for xi, x in enumerate(xs):
+        for yi in range(ny - 1):
+            a, b = ys[yi], ys[yi + 1]
+            if not vfree(x, a, b):
+                continue
+            ok = any(x in (r[0], r[2]) and vfree(x, min(r[1], a), max(r[3], b)) for r in rects)
+            for e, f in ends:
+                if not ok and e[0] == x:
+                    ok = bool((f & 2 and a >= e[1] and vfree(x, e[1], b) and not cut_v(x, e[1], b)) or
+                              (f & 1 and b <= e[1] and vfree(x, a, e[1]) and not cut_v(x, a, e[1])))
+            covV[xi][yi] = ok
+    corners = set()
+    for r in rects:
+        corners |= {(r[0], r[1]), (r[0], r[3]), (r[2], r[1]), (r[2], r[3])}
+
+    def step_ok(px, py, h):
+        qx, qy = px + HDX[h], py + HDY[h]
+        if not (0 <= qx < nx and 0 <= qy < ny):
+            return False
+        return covH[py][px] if h == 1 else covH[py][qx] if h == 3 else covV[px][py] if h == 2 else covV[px][qy]
+
+    def corner_ahead(px, py, h):
+        x, y = px, py
+        while step_ok(x, y, h):
+            x, y = x + HDX[h], y + HDY[h]
+            q = (xs[x], ys[y])
+            if q in corners:
+                return True
+            if cut and (q == src or q == dst):
+                return False
+        return False
+
+    def turn_ok(px, py, nh):
+        if not prune:
+            return True
+        q = (xs[px], ys[py])
+        if nh in (0, 2):
+            if q[1] == src[1] or q[0] == dst[0]:
+                return True
+        elif q[0] == src[0] or q[1] == dst[1]:
+            return True
+        return corner_ahead(px, py, nh)
+    sx, sy, tx, ty = XI[src[0]], YI[src[1]], XI[dst[0]], YI[dst[1]]
+    dist, pq = {}, []
+
+    def push(c, st):
+        if c < dist.get(st, 1e18):
+            dist[st] = c
+            heapq.heappush(pq, (c, st))
+    for h in range(4):
+        if sflags & FLAG_OF_HEADING[h] and step_ok(sx, sy, h):
+            qx, qy = sx + HDX[h], sy + HDY[h]
+            push(abs(xs[qx] - xs[sx]) + abs(ys[qy] - ys[sy]), (qx, qy, h))
+    best = None
+    while pq:
+        c, st = heapq.heappop(pq)
+        if c > dist[st]:
+            continue
+        px, py, h = st
+        if (px, py) == (tx, ty):
+            if dflags & FLAG_OF_HEADING[(h + 2) % 4] and (best is None or c < best):
+                best = c
+            continue
+        if (px, py) == (sx, sy) and cut:
+            continue
+        for nh in range(4):
+            if nh != h and not cut and (px, py) in ((sx, sy), (tx, ty)):
+                continue
+            if nh == (h + 2) % 4 or not step_ok(px, py, nh) or (nh != h and not turn_ok(px, py, nh)):
+                continue
+            qx, qy = px + HDX[nh], py + HDY[nh]
+            push(c + abs(xs[qx] - xs[px]) + abs(ys[qy] - ys[py]) + (pen if nh != h else 0), (qx, qy, nh))
+    return best
+
+
+def has_reversal(route):
+    sg = lambda v: (v > 0) - (v < 0)
+    pts = [route[0]] + [q for i, q in enumerate(route[1:]) if q != route[i]]
+    ds = [(sg(b[0] - a[0]), sg(b[1] - a[1])) for a, b in zip(pts, pts[1:])]
+    return any(u[0] == -v[0] and u[1] == -v[1] for u, v in zip(ds, ds[1:]))
+
+
+def judge_dirs(r):
+    """direction-restricted family: None if fine, else (kind, no_input, fingerprint or None, extra dict)"""
+    if 'error' in r:
+        return 'router_failed', False, None, {}
+    txt = r['route_text']
+    for (x0, y0), (x1, y1) in zip(txt, txt[1:]):
+        if float(x0) != float(x1) and float(y0) != float(y1):
+            return 'segment_not_axis_parallel', False, None, {}
+    if any(q[0] is None or q[1] is None for q in r['route']):
+        return 'non_integer_route_coordinate', False, None, {}
+    restricted = r['src_dirs'] != 15 or r['dst_dirs'] != 15
+    if restricted and has_reversal(r['route']):
+        return 'route_doubles_back_on_itself', False, FP_BACK, {}
+    if r.get('impl_status') != 'ok':
+        return 'route_rejected_by_verified_checker (endpoint direction flags not honoured, or through an obstacle, or not from src to dst)', False, None, {}
+    if r.get('oracle_status') != 'ok':
+        return 'oracle_' + str(r.get('oracle_status')), True, None, {}
+    if r['impl_cost'] > r['oracle_cost'] + 1e-9:
+        m = sight_line_model(r['boxes'], r['src'], r['dst'], r['penalty'], r['src_dirs'], r['dst_dirs'])
+        extra = {'optimum_of_libavoid_search_space_model': m}
+        if restricted and m is not None and r['impl_cost'] <= m + 1e-9:
+            m2 = sight_line_model(r['boxes'], r['src'], r['dst'], r['penalty'], r['src_dirs'], r['dst_dirs'], prune=False)
+            sub = 'sight_lines' if m2 is not None and abs(m2 - m) <= 1e-9 else 'turn_pruning'
+            extra['optimum_on_sight_lines_without_turn_pruning'] = m2
+            return 'route_not_minimal', False, FP_SPACE + ':' + sub, extra
+        return 'route_not_minimal', False, None, extra
+    if r['impl_cost'] < r['oracle_cost'] - 1e-9:
+        return 'oracle_not_optimal', True, None, {}
+    return None
+
+
+def dirs_obj(r, kind, extra):
+    pen = r['penalty']
+    obj = {'what': kind, 'family': 'direction-restricted free endpoints', 'rectangles_x0y0x1y1': r['boxes'], 'src': r['src'], 'dst': r['dst'],
+           'src_ConnDirFlags': r['src_dirs'], 'dst_ConnDirFlags': r['dst_dirs'], 'segmentPenalty': pen, 'route': r.get('route_text'),
+           'route_cost': r.get('impl_cost'), 'oracle_cost': r.get('oracle_cost'), 'oracle_path': r.get('oracle_path'), 'error': r.get('error'),
+           'replay': 'printf "S %s %d 1\\n%s\\n%d %d %d %d %d %d\\nE\\n" | build/bin/c05_bends-* routes   (orthogonal routing, idealNudgingDistance 0, route(); '
+                     'flags Up 1 Down 2 Left 4 Right 8, y grows downwards)'
+                     % (repr(float(pen)), len(r['boxes']), '\\n'.join('%d %d %d %d' % tuple(b) for b in r['boxes']), r['src'][0], r['src'][1], r['dst'][0], r['dst'][1],
+                        r['src_dirs'], r['dst_dirs'])}
+    obj.update(extra)
+    return obj
+
+
+def corpus_dirs_scenes():
+    """corpus/c05_dirs.json: [{name, boxes, src, dst, src_dirs: [..] | 'all', dst_dirs: [..] | 'all'}] (demos of seeded C05-3 / C05-4, known reproducers)"""
+    path = os.path.join(C.VERIF, 'corpus', 'c05_dirs.json')
+    out = []
+    if os.path.exists(path):
+        for e in json.load(open(path)):
+            sl = list(range(1, 16)) if e['src_dirs'] == 'all' else e['src_dirs']
+            dl = list(range(1, 16)) if e['dst_dirs'] == 'all' else e['dst_dirs']
+            for sf in sl:
+                for df in dl:
+                    out.append(([tuple(b) for b in e['boxes']], [(tuple(e['src']), tuple(e['dst']), sf, df)]))
+    return out
+
+
+def run_dirs_family(res, exe, spec_exe, rng, tier, stats, machinery):
+    """returns number of violations"""
+    viol = 0
+    per_pen = 2 if tier == 'quick' else 12          # scenes per (flag pair, penalty)
+    corpus = corpus_dirs_scenes()
+    stats['corpus_scenes'] = len(corpus)
+    for pen in DIR_PENALTIES:
+        scenes = list(corpus)
+        for sf in range(1, 16):
+            for df in range(1, 16):
+                for k in range(per_pen):
+                    sc = gen_dirs_scene(rng, 1 + (sf + df + k) % 4, sf, df)
+                    if sc is not None:
+                        scenes.append(sc)
+        scale = 2 if pen != int(pen) else 1
+        recs, dtc, dto = run_routes(exe, spec_exe, scenes, pen, scale)
+        stats['by_penalty'][str(pen)] = {'routes': len(recs), 'router_s': round(dtc, 2), 'oracle_s': round(dto, 2)}
+        for r in recs:
+            stats['routes'] += 1
+            key = '%d/%d' % (r['src_dirs'], r['dst_dirs'])
+            stats['flag_pairs'].add(key)
+            j = judge_dirs(r)
+            if j is None:
+                stats['agree'] += 1
+                if 'route' in r and route_bends(r['route']) >= 2:
+                    stats['with_detour'] += 1
+                continue
+            kind, no_input, fp, extra = j
+            obj = dirs_obj(r, kind, extra)
+            if no_input:
+                machinery.append(obj)
+                continue
+            if fp:
+                stats['known'][fp] = stats['known'].get(fp, 0) + 1
+                if not res.violation(obj, fingerprint=fp):
+                    continue
+            elif viol < 4:
+                res.violation(obj)
+            viol += 1
+    return viol
 
 # ------------------------------------------------------------------------------------------ bends sweep
 def parse_sweep(out, ncol):
@@ -343,9 +602,18 @@ def run(tier):
                 if route_viol < 3:
                     res.violation(obj)
                 route_viol += 1
+    dstats = {'routes': 0, 'agree': 0, 'with_detour': 0, 'by_penalty': {}, 'flag_pairs': set(), 'known': {}}
+    dirs_viol = run_dirs_family(res, exe, spec_exe, rng, tier, dstats, machinery)
+    route_viol += dirs_viol
+    evals += dstats['routes']
+    dstats['flag_pairs'] = len(dstats['flag_pairs'])
     res.cov.update({
+        'direction_restricted_family': dict(dstats, what='framed scenes (4 frame rectangles + 1-4 rectangles), one orthogonal connector between free endpoints, all 15 x 15 '
+                                            'non-empty ConnDirFlags combinations at source and target, segmentPenalty 0.5 / 10 / 50 / 400; raw route() checked by check_path_dirs '
+                                            '(flags honoured, obstacle-free) and compared with oracle_dirs (grid_oracle_optimal); known = cases explained by the classifiers '
+                                            'sight_line_model / has_reversal', violations=dirs_viol),
         'evaluations': evals,
-        'distinct_nontrivial': sum(1 for k in cpp if not (k[3] == 0 and k[4] == 0)) + route_stats['with_detour'],
+        'distinct_nontrivial': sum(1 for k in cpp if not (k[3] == 0 and k[4] == 0)) + route_stats['with_detour'] + dstats['with_detour'],
         'rule': 'bends sweep: exhaustive over all relative positions in {-%d..%d}^2 x 16 direction pairs x 3 base points/scales '
                 '(non-trivial = curr != dest); routes: non-trivial = routes with at least 2 bends (a detour round a rectangle)' % (R, R),
         'exhaustive': True, 'samples': samples, 'traces_validated_against_impl': evals,
